@@ -33,7 +33,7 @@ TECHNIQUE = "runtime monitoring: history checker over recorded read/write cycles
 
 OPTSETS = [{}, {"version": 1.2}, {"version": 2, "wrap": True}, {"fmt": "%.2f"}, {"wrap": True, "data_width": 40, "fmt": "%.3f"},
            {"mnemonics_header": True, "data_section_header": "~A"}, {"version": 1.2, "wrap": False, "len_numeric_field": -1}]
-MUTATIONS = ["none", "dup_curve", "blank_curve", "dup_param", "unit_point1in", "empty_values", "long_fields", "blank_param", "empty_step", "dup_null", "vers_1.0", "vers_2.1", "vers_3.0", "vers_1.2", "wrap_Yes", "wrap_yes", "wrap_No"]
+MUTATIONS = ["none", "dup_curve", "blank_curve", "dup_param", "unit_point1in", "empty_values", "long_fields", "blank_param", "empty_step", "dup_null", "vers_1.0", "vers_2.1", "vers_3.0", "vers_1.2", "wrap_Yes", "wrap_yes", "wrap_No", "numeric_unit", "blank_param_float", "nested_bracket_units"]
 
 
 def corpus():
@@ -52,6 +52,12 @@ def grid(tier):
             yield {"input": fn, "mutation": "dup_null", "opts": 1}
     for k in range(20):
         yield {"input": "gen", "seed": 1000 + k, "mutation": "dup_null", "opts": [1, 6][k % 2]}
+    for k in range(8):
+        yield {"input": "gen", "seed": 5000 + k, "mutation": "numeric_unit", "opts": k % len(OPTSETS)}
+    for k in range(4):
+        yield {"input": "gen", "seed": 5100 + k, "mutation": "blank_param_float", "opts": [0, 1, 2, 5][k]}
+    for k in range(4):
+        yield {"input": "gen", "seed": 5200 + k, "mutation": "nested_bracket_units", "opts": [0, 1, 2, 5][k]}
     for k, v in enumerate(["vers_1.0", "vers_1.2", "vers_2.1", "vers_3.0"] * 6):
         yield {"input": "gen", "seed": 2000 + k, "mutation": v, "opts": [0, 3, 5, 4][k % 4]}      # option sets that leave version=None
     k = 0
@@ -118,6 +124,21 @@ def mutate(lasio, las, mutation):
     elif mutation.startswith("vers_"):
         # every version number defaults.ORDER_DEFINITIONS tabulates, declared by the object itself (write(version=None) keeps it)
         las.version["VERS"].value = float(mutation[5:])
+    elif mutation == "nested_bracket_units":
+        # units in two or three layers of brackets (one layer is stripped by every read)
+        las.params.append(lasio.HeaderItem("BRK2", "((m))", 5, "two layers"))
+        las.params.append(lasio.HeaderItem("BRK3", "[[[ohm.m]]]", 7.5, "three layers"))
+        las.well.append(lasio.HeaderItem("BRKM", "([m])", 1, "mixed layers"))
+        if len(las.curves) >= 2:
+            las.curves[-1].unit = "((gAPI))"
+    elif mutation == "blank_param_float":
+        # what reading ' .m 1e3 : d' gives: a blank mnemonic whose value prints with a period (known finding: the line then holds a second period)
+        las.params.append(lasio.HeaderItem("", "m", 1000.0, "blank mnemonic, float value"))
+    elif mutation == "numeric_unit":
+        # a unit made of digits only, with a value: readable as 'Y.1000  25 : p'; it must not drift into the '1000 lbf' form
+        las.params.append(lasio.HeaderItem("NUMU", "1000", 25, "digits-only unit, numeric value, widest of the section by far ............"))
+        las.params.append(lasio.HeaderItem("NUMV", "10", "abc", "digits-only unit, text value"))
+        las.well.append(lasio.HeaderItem("NUMW", "25", "a much longer value than any other in this section, to be the widest", "w"))
     elif mutation.startswith("wrap_"):
         # the object's own WRAP item in another spelling (write(wrap=None) decides from it, read() interprets it)
         las.version["WRAP"].value = mutation[5:]
@@ -223,9 +244,21 @@ def lossy_index_fmt(opts):
     return not (m and int(m.group(1)) >= 5)
 
 
+def blank_mnemonic_with_period(las):
+    for sec in las.sections.values():
+        if isinstance(sec, str):
+            continue
+        for it in list.__iter__(sec):
+            if it.original_mnemonic.strip() == "" and any("." in str(x) for x in (it.unit, it.value, it.descr)):
+                return True
+    return False
+
+
 def classify_drift(diffs, las, opts=None):
     if has_text_with_blanks(las):
         return "drift:text-curve-values-with-blanks-written-unquoted"
+    if blank_mnemonic_with_period(las):
+        return "drift:blank-mnemonic-line-gains-a-period"
     first = diffs[0] if diffs else ""
     if leading_dot_unit(las) and any(re.search(r"unit|index_unit|original|mnemonic", d) for d in diffs):
         return "drift:leading-dot-unit-in-curves-migrates-to-mnemonic"
